@@ -26,6 +26,7 @@ func init() {
 		Level: "fault_enumeration",
 		Rule: "probe-instrumented programs (templates: straight-line, dotimes incl. empty body, tail loop, non-tail recursion, re-expanding macro, map/foldl callbacks, nested load-string, with/without ignore-errors and handler-bind; plus generated programs) are run unlimited under a counting context to obtain N and a step-stamped trace, then under WithMaxSteps(n) for every n in 1..N+2 (all n when N<=400, else n<=64, n>=N-8 and a stride) and under a scripted context cancelled at step k for every such k; " +
 			"definition context x call context: a function (defun, global lambda, labels, closure made by an earlier request or returned to the host, closure stored in a map, callback of map/foldl/apply, macro body; 20 body shapes) is defined in a fresh runtime under each of {no context, context.Background(), a live cancelable context, a context cancelled once the phase has returned, a distant deadline, a root WithContext} through each loading entry point, then run as a request through each *Context entry point under a DIFFERENT context (scripted, or a real WithCancel / child-of-cancelled-parent / WithDeadline context cancelled by the step hook) cancelled at sampled steps k: the trace is the uncancelled request cut at k-1, ends in context-cancelled at step k; " +
+			"host-started calls: once per worker every Go-implemented function, special operator and macro of the registry is called with argument vectors from a small pool (probe-carrying callback, list, vector, int, type symbol, source text, quoted form, map; forms for operators and macros) and kept when it succeeds and the probe fired (the builtin re-entered the evaluator); calls whose value is a function (compose, flip, curry-function, expr, lambda) give derived callees; each kept call is made twice in one runtime through FunCall / FunCallContext / SpecialOpCall / MacroCall+Eval of the expansion / EvalSExpr, unlimited (N and trace stamped by the lifetime counter), under stratified budgets n and cancellation indices k with the oracles above, plus: the per-evaluation counter starts once per top-level entry; " +
 			"physical-height, eval-nesting, tail-iteration and macro-expansion limits are enumerated 1..40 (1..20 for macros) against recursion depths around each bound with hook assertions on every push and eval entry. distinct_nontrivial counts distinct (program template, limit kind, limit value bucket, outcome) combinations",
 		Assumptions: []string{
 			"the unlimited run is made under a never-cancelled context so that steps are counted (the step counter is only live when a context or a budget is configured)",
@@ -54,6 +55,9 @@ type c04Mon struct {
 	// (before that step's own context poll), see c04_crossctx.go
 	cancelAt int64
 	cancel   func()
+	// ones counts how often the per-evaluation counter read 1 (c04_hostcall.go: once
+	// per top-level entry)
+	ones int64
 }
 
 var c04Cur *c04Mon
@@ -70,6 +74,9 @@ func c04Init(w *fw.W) {
 				m.badStep = fmt.Sprintf("step counter went from %d to %d", m.lastSteps, steps)
 			}
 			m.lastSteps = steps
+			if steps == 1 {
+				m.ones++
+			}
 			if m.cancelAt > 0 && steps == m.cancelAt && m.cancel != nil {
 				m.cancel()
 			}
@@ -219,6 +226,7 @@ func c04Run(w *fw.W, idx int) {
 	default:
 		c04Refill(w, idx)
 		c04CrossCtx(w, idx)
+		c04HostCalls(w, idx)
 	}
 }
 
